@@ -180,3 +180,29 @@ Theorem C05_a_partial_deletion_reaches_the_clean_up_with_a_closed_cfg :
     ((exists e, In e (out_edges s2 end1) /\ is_call e = true) -> ~ has_ret s2 end1) ->
     Closed (edit_byte_interval s3 bi (boff (the_blk s3 b) + offset) length [] [b]).
 Proof. exact Closed_partial_deletion. Qed.
+
+(* when the deleted range does not reach the end of the block the second split is a split in the middle, the middle block keeps one
+   edge only (the fallthrough to the tail), and the call/return condition needs no hypothesis *)
+Theorem C05_an_inner_deletion_reaches_the_clean_up_with_a_closed_cfg :
+  forall s b offset length end1 ft1 s1 end2 ft2 s2 r s3 bi,
+    Closed s -> live s (NB b) -> is_code s b = true ->
+    split_block s b offset = Ok (end1, ft1, s1) ->
+    split_block s1 end1 length = Ok (end2, ft2, s2) ->
+    length <> bsize (the_blk s1 end1) ->
+    remove_block s2 end1 false = Ok (r, s3) ->
+    (forall n, snd (adjacent_blocks s2 end1) = Some n -> live s2 (NB n) /\ n <> end1) ->
+    Closed (edit_byte_interval s3 bi (boff (the_blk s3 b) + offset) length [] [b]).
+Proof. exact Closed_inner_deletion. Qed.
+
+(* ... and the successor of a block that was just split is its tail, so for a deletion inside a code block the chain needs no
+   hypothesis about intermediate states at all: from a closed CFG and a live code block, the state delete() hands to the clean-up is
+   closed *)
+Theorem C05_a_deletion_inside_a_block_keeps_the_cfg_closed :
+  forall s b offset length end1 ft1 s1 end2 ft2 s2 r s3 bi,
+    Closed s -> live s (NB b) -> is_code s b = true ->
+    split_block s b offset = Ok (end1, ft1, s1) ->
+    split_block s1 end1 length = Ok (end2, ft2, s2) ->
+    length <> bsize (the_blk s1 end1) ->
+    remove_block s2 end1 false = Ok (r, s3) ->
+    Closed (edit_byte_interval s3 bi (boff (the_blk s3 b) + offset) length [] [b]).
+Proof. exact Closed_inner_deletion'. Qed.
